@@ -54,7 +54,7 @@ pub fn run(cases: &[Vec<String>]) {
     }
 }
 
-async fn run_case(case: Vec<String>) -> String {
+pub async fn run_case(case: Vec<String>) -> String {
     let chunks: VecDeque<Vec<u8>> = case[2].split('|').filter(|s| !s.is_empty()).map(unhex).collect();
     let msgs: Vec<Vec<u8>> = case.get(3).map(|m| m.split('|').filter(|s| !s.is_empty()).map(unhex).collect()).unwrap_or_default();
     let mut framed = FramedRead::new(ScriptedStream { chunks }, StreamingDecoder::new(Parser::default()));
